@@ -2,7 +2,8 @@
 
 Building twice from one spec yields two structurally identical, independent parsers."""
 import copy
-from typing import Any, Callable, Dict, List, Literal, Optional, Set, Tuple, Union
+from decimal import Decimal
+from typing import Any, Callable, Dict, List, Literal, Optional, Set, Tuple, Type, Union
 
 from jsonargparse import ActionConfigFile, ActionParser, ArgumentParser, lazy_instance
 from jsonargparse.typing import Path_dc, Path_dw, Path_fc, Path_fr, path_type
@@ -54,6 +55,12 @@ TYPES = {
     "callable_base": Callable[[int], S.Base],
     "opt_model": Optional[S.Model],
     "pos_int": S.pos_int,
+    "type_base": Type[S.Base],
+    "opt_type_base": Optional[Type[S.Base]],
+    "decimal": Decimal,
+    "list_D": List[S.D],
+    "dict_str_D": Dict[str, S.D],
+    "opt_callable": Optional[Callable],
 }
 
 CLASSES = {
